@@ -6,9 +6,11 @@ import (
 	"io"
 	"net"
 	"net/http"
+	"strings"
 	"sync"
 	"sync/atomic"
 	"testing"
+	"time"
 
 	"github.com/andydunstall/piko/server/cluster"
 
@@ -208,6 +210,30 @@ func TestC06(t *testing.T) {
 				status, stampUp, terr = res.Status, res.Upstream, res.Err
 				if res.Err == nil && res.Status == 200 && res.Endpoint != ep {
 					c.Fatalf("C06: served by an upstream of endpoint %q", res.Endpoint)
+				}
+			} else if conn := c.OneOf("tcpConnectionHeader", "", "", "Upgrade, x-piko-forward", "upgrade, X-Piko-Forward, x-piko-endpoint"); conn != "" {
+				// the TCP route as a hand-made WebSocket handshake whose Connection header
+				// also names piko's own headers
+				c.Class("client-connection-header-on-upgrade")
+				wc, br, st, err := rawUpgradePath(cl.Nodes[entry].ProxyAddr(), "x", "/_piko/v1/tcp/"+ep, "websocket", conn)
+				switch {
+				case err != nil:
+					terr = err
+				case st == 101:
+					status = 200
+					// one binary frame carries the stamp line: skip the 2-byte frame header
+					_ = wc.SetReadDeadline(time.Now().Add(10 * time.Second))
+					hdr := make([]byte, 2)
+					if _, err := io.ReadFull(br, hdr); err == nil {
+						line, _ := br.ReadString('\n')
+						f := strings.Fields(line)
+						if len(f) == 3 {
+							stampUp = f[2]
+						}
+					}
+					wc.Close()
+				default:
+					status = st
 				}
 			} else {
 				res := DialTCP(cl.Nodes[entry], ep, "", false)
